@@ -330,3 +330,23 @@ func ListeningServer(addr string) any { return nil }
 
 // ListeningCount is the number of modelled servers listening on addr (engine only).
 func ListeningCount(addr string) int { return 1 }
+
+var perturbN uint64
+
+// Perturb is a native-only schedule perturbation for harness goroutines: it
+// sleeps for a pseudo-random short time so that repeated native runs of a
+// schedule-dependent counterexample cover different orders. Under the engine
+// it does nothing (the scheduler explores the orders itself).
+func Perturb() {
+	mu.Lock()
+	perturbN = perturbN*6364136223846793005 + 1442695040888963407
+	n := perturbN >> 33
+	mu.Unlock()
+	switch n % 4 {
+	case 0:
+	case 1:
+		runtime.Gosched()
+	default:
+		time.Sleep(time.Duration(n%400) * time.Microsecond)
+	}
+}
